@@ -739,4 +739,48 @@ func checkC19(p *Prog, r *Report) {
 			r.Check(n >= 2, "duplicate legacy catch-all rejected (IPv4 and IPv6)", p.Pos(f.Body.Pos()), "two guarded error returns", fmt.Sprintf("only %d of the two duplicate catch-all checks remain", n))
 		}
 	}
+
+	// ---- R19.7 keys of the explicit-mapping table are canonical --------------------------------------------
+	r.Rule("R19.7", "Every key written to or looked up in a family mapping's explicit table (ipMap) is the canonical text net.IP.String() of a parsed address — never the rule's raw Local string — so a pinned rule is found whatever spelling the configuration used.", 3)
+	for _, op := range p.mapOps("ipMapping.ipMap") {
+		if op.key == nil {
+			continue
+		}
+		ok := false
+		if c, _, isC := p.ResolveCall(op.f, op.key); isC && p.CalleeName(c) == "net.IP.String" {
+			ok = true
+		}
+		r.Check(ok, "ipMap key in "+op.f.Name+" ("+op.kind+")", p.Pos(op.node.Pos()), "net.IP.String() of a parsed address", "the explicit-mapping table is keyed by "+stripVarLines(p.Canon(op.key))+" here: a pinned rule whose Local is spelled non-canonically (upper-case hex, expanded zeros, IPv4-mapped) is never found and the lookup falls through to the catch-all")
+	}
+
+	// ---- R19.8 every external address of the winning rule is applied -------------------------------------
+	r.Rule("R19.8", "appendHostMappedAddrs adds every external address of the lookup result that converts to an address: nothing but a failed conversion may drop one (the advertised set equals the winning rule's externals).", 1)
+	if f := p.Fn("appendHostMappedAddrs"); r.Anchor("appendHostMappedAddrs", f != nil) {
+		n := 0
+		walkBody(f, func(x ast.Node) bool {
+			rs, ok := x.(*ast.RangeStmt)
+			if !ok {
+				return true
+			}
+			n++
+			skips := p.iterationSkips(f, rs, func(nd ast.Node) bool {
+				return p.nodeHasCall(nd, func(c *ast.CallExpr) bool { return p.CalleeName(c) == "builtin.append" })
+			}, func(e *Edge) bool {
+				// the conversion failed
+				for _, ft := range p.FactsOfCond(e.Cond, e.Val) {
+					if ft.Op == "truth" && !ft.Val {
+						if c, idx, ok := p.ResolveCall(f, ft.X); ok && idx == 1 && p.CalleeName(c) == "net/netip.AddrFromSlice" {
+							return true
+						}
+					}
+				}
+				return false
+			})
+			r.Check(!skips, "appendHostMappedAddrs adds every convertible external address", p.Pos(rs.Pos()), "append on every path except a failed conversion", "an external address of the winning rule can be dropped for another reason: with a replace rule that names the local address itself the candidate disappears")
+			return true
+		})
+		if n == 0 {
+			r.Fail("appendHostMappedAddrs adds every convertible external address", p.Pos(f.Body.Pos()), "no loop over the external addresses")
+		}
+	}
 }
